@@ -272,6 +272,9 @@ func Check(c *core.Ctx) int {
 	if c.Replay != "" {
 		return Replay(c)
 	}
+	if os.Getenv("VERIF_C17_SELFTEST") != "" {
+		return SelfTest(c)
+	}
 	dyn, ta := specModes()
 	c.Logf("TLC enumeration of the case domain (tier %s, code-shaped layer DynMode=%s TopicArgMode=%s)", c.Tier, dyn, ta)
 	g, err := Generate(c)
